@@ -134,6 +134,7 @@ def scalar_tags(prog, chk, rid):
 def run(prog, chk):
     chk.extra["explanation"] = EXPLANATION
     scalar_tags(prog, chk, "C07.g")
+    type_queries_by_tag(prog, chk, "C07.j")
     R.tag_casts(prog, chk, "C07.a", ("Variant",), floor=15)
     R.exclusive_guard(prog, chk, "C07.b", ("Variant",), floor=8)
     R.clone_into_fresh(prog, chk, "C07.c", ("Variant",), floor=8)
@@ -143,3 +144,38 @@ def run(prog, chk):
     R.acquire_before_release(prog, chk, "C07.f", ("Variant",), floor=1)
     R.own_payload_after_release(prog, chk, "C07.h", fams=("Variant",), floor=8)
     R.argument_after_release(prog, chk, "C07.i", fams=("Variant",), floor=3)
+
+
+def type_queries_by_tag(prog, chk, rid):
+    """"A Variant reports the type and value it was last given": the tag is the one place that says which value is held.  getType()
+    returns it, isNull() is `tag == nullType` - for every tag, wherever the descriptor lives (the shared null descriptor, the inline
+    one a scalar assignment leaves behind, a heap block)."""
+    from ..facts import AnalysisBroken
+    chk.rule(rid, "FIN: Variant::isNull() / getType() (and the Xml::Variant counterparts) evaluated for every type tag: the answer is "
+                  "determined by `data->type` alone - isNull() is true exactly for the null tag, getType() returns the tag", floor=2)
+    n = 0
+    for f in sorted(prog.functions.values(), key=lambda g: g.sig):
+        if not f.blocks or f.clsq not in ("Variant", "Xml::Variant") or f.short not in ("isNull", "getType") or f.params:
+            continue
+        n += 1
+        rets = [i for i, x in enumerate(f.nodes) if x["k"] == "ReturnStmt" and x["c"]]
+        bad = None
+        for tag in range(0, 11 if f.clsq == "Variant" else 3):
+            seen, end, fv = fin.walk_vals(f, f.entry, {"this->data->type": tag}, limit=100)
+            got = fin.eval_expr(f, f.nodes[end]["c"][0], fv) if isinstance(end, int) and f.nodes[end]["c"] else None
+            if got is None:
+                tx = q.no_casts(f.r(f.nodes[rets[0]]["c"][0]))[:50] if rets else "?"
+                bad = (tag, "`%s` is not decided by the tag" % tx)
+                break
+            want = (tag == 0) if f.short == "isNull" else tag
+            if int(got) != int(want):
+                bad = (tag, "it answers %s, the tag says %s" % (got, want))
+                break
+        if bad:
+            chk.bad(rid, f, "type-query-not-by-tag:" + f.short, "%s:%s" % (f.file, f.line),
+                    "%s::%s() for the tag %d: %s - a Variant assigned from a null Variant holds the null tag in its inline descriptor and "
+                    "then reports getType() == nullType but isNull() == false (and compares unequal to its own copy)" % (f.clsq, f.short, bad[0], bad[1]), evals=11)
+        else:
+            chk.ok(rid, f, "%s() decided by the tag for every tag" % f.short, "%s:%s" % (f.file, f.line), "evaluation over the tag values", evals=11)
+    if n < 2:
+        raise AnalysisBroken("Variant::isNull / getType not found")
